@@ -8,20 +8,37 @@ Oracle (A5, "Quaver .qua", written from the format description, not from reamber
       SliderVelocities: [{StartTime, Multiplier}]
       HitObjects:       [{StartTime, Lane (1-based), EndTime?, KeySounds: [...]}]
   an object with EndTime is a hold of length EndTime - StartTime; omitted StartTime is 0; omitted KeySounds
-  is [].  The value of an omitted Bpm / Multiplier is NOT fixed by the format text and is never asserted.
-  A written document may contain no other keys and no non-finite numbers.
+  is [].  The value of an omitted Bpm is NOT fixed by the format text and is never asserted.  The value of an
+  omitted Multiplier is not spelled out by A5 either, but the property names it ("the format's defaults for
+  omitted ... Multiplier ... keys"), so it is asserted in a clause of its own (sv_default_multiplier) and only as
+  far as the public descriptions agree: the omitted key stands for ONE constant of the format, which is either
+  0.0 (Quaver's own serializer leaves out zero-valued fields) or 1.0 (the neutral multiplier, the documented
+  default of QuaSv).  Any other value (a tempo, NaN, a per-document value) is not the format's default.
+  A written document may contain no other keys and no non-finite numbers; a key outside A5 that the SOURCE
+  document itself carried (unknown-but-legal extras such as HitSound / EditorLayer / Bookmarks) may be carried
+  through or dropped - A5 is silent - but may not turn into a non-finite number.
 
 Clause ids (`what`)
-  read.<aspect>[<feature>]            aspect: accepts, hits, holds, keysounds, timing_points, svs, metadata
+  read.<aspect>[<feature>]            aspect: accepts, hits, holds, keysounds, timing_points, svs, metadata,
+                                      sv_default_multiplier
                                       feature: the ONE thing that distinguishes the document from the plain
                                       base document (fixed vocabulary, see FEATURES), or "mixed"
   <origin>.write.<aspect>             origin: native | converted[osu|sm|bms|o2j]
                                       aspect: succeeds, loads_as_mapping, keys_allowed, value_types,
                                       no_nonfinite, same_hits, same_holds, same_keysounds,
                                       same_timing_points, same_svs, same_metadata
+  <origin>.write_again.<aspect>       the SAME chart object written a second time (aspects as for write)
   <origin>.read_after_write.<aspect>  aspect: accepts, hits, holds, keysounds, timing_points, svs, metadata
   write_after_read.<aspect>[<feature>]
 Converted charts are clauses of their own, so the native clauses are exercised independently.
+
+Dimensions that do NOT enter the clause id (they are fields of the case): `via` - the entry point the text goes
+through (read(str), read(list of lines) in three splittings and read twice from the same list object,
+read(..., safe=False), read through an instance, read_file(str path) and read_file(Path)); `wvia` - write() or
+write_file(); the text FORM (LF, CRLF, trailing blank lines, no final newline, YAML comment lines); for
+in-memory charts `numeric` (python floats / all-int columns / numpy scalars) and `post` (public list operations
+applied before writing - sorted, reversed, slices, mask filters - that leave permuted / reversed / offset / gappy
+row labels on each of the four lists).
 """
 from __future__ import annotations
 
@@ -31,6 +48,8 @@ import json
 import logging
 import math
 import os
+import pathlib
+import tempfile
 import warnings
 from fractions import Fraction
 
@@ -137,12 +156,28 @@ def _nonfinite_paths(v, path=""):
             yield from _nonfinite_paths(x, f"{path}[{i}]")
 
 
-def wf_qua(raw):
-    """Well-formedness of a WRITTEN document: [(aspect, detail)] for keys_allowed / value_types / no_nonfinite."""
+def extras_of(raw):
+    """Keys outside A5 that a SOURCE document carries: (top-level keys, {section: record keys}).  A document
+    written from the chart read from it may carry them through (A5 is silent on unknown keys)."""
+    if not isinstance(raw, dict):
+        return set(), {}
+    top = {k for k in raw if k not in ALLOWED_TOP}
+    rec = {}
+    for sec, allowed in SECTIONS.items():
+        v = raw.get(sec)
+        if isinstance(v, list):
+            rec[sec] = {k for r in v if isinstance(r, dict) for k in r if k not in allowed}
+    return top, rec
+
+
+def wf_qua(raw, extra_top=(), extra_rec=None):
+    """Well-formedness of a WRITTEN document: [(aspect, detail)] for keys_allowed / value_types / no_nonfinite.
+    extra_top / extra_rec: keys outside A5 that the source document declared itself (see extras_of)."""
     out = []
+    extra_rec = extra_rec or {}
     if not isinstance(raw, dict):
         return [("loads_as_mapping", f"top level is {type(raw).__name__}")]
-    extra = [k for k in raw if k not in ALLOWED_TOP]
+    extra = [k for k in raw if k not in ALLOWED_TOP and k not in extra_top]
     if extra:
         out.append(("keys_allowed", f"top-level keys outside the format: {extra[:5]}"))
     for sec, allowed in SECTIONS.items():
@@ -153,7 +188,7 @@ def wf_qua(raw):
             out.append(("value_types", f"{sec} is not a list of mappings: {str(v)[:80]}"))
             continue
         for i, r in enumerate(v):
-            bad = [k for k in r if k not in allowed]
+            bad = [k for k in r if k not in allowed and k not in extra_rec.get(sec, ())]
             if bad:
                 out.append(("keys_allowed", f"{sec}[{i}] has keys outside the format: {bad} (record {r})"))
                 break
@@ -319,6 +354,35 @@ def compare_charts(want, got, tol):
     return out
 
 
+DEFAULT_MULTIPLIERS = (0.0, 1.0)  # see the module docstring: the two public readings of an omitted Multiplier
+
+
+def sv_default_clause(want, got, tol):
+    """Clause sv_default_multiplier: None when it holds / does not apply, else the detail.  `want` has None for
+    every omitted Multiplier.  Holds when ONE constant d of DEFAULT_MULTIPLIERS, put in place of every omitted
+    Multiplier (on both sides: a re-written document may omit the key again), makes the SV lists equal.  When
+    the lists differ even with the omitted values left open, the plain svs clause reports it, not this one."""
+    if not any(x is None for _, x in want["svs"]):
+        return None
+
+    def sub(svs, d):
+        return [(0, t, d if x is None else x) for t, x in svs]
+
+    def compat(a, b):
+        return abs(a[1] - b[1]) < tol and _veq(a[2], b[2])
+
+    if not _match(sub(want["svs"], None), sub(got["svs"], None), compat)[0]:
+        return None
+    last = ""
+    for d in DEFAULT_MULTIPLIERS:
+        ok, last = _match(sub(want["svs"], d), sub(got["svs"], d), compat)
+        if ok:
+            return None
+    omitted = sorted(t for t, x in want["svs"] if x is None)
+    return (f"SliderVelocities entries at {omitted[:4]} omit Multiplier; the chart has (time, multiplier) {sorted(got['svs'], key=lambda e: e[0])[:6]}: "
+            f"no single default of {DEFAULT_MULTIPLIERS} explains it ({last})")
+
+
 # ----------------------------------------------------------------------------- document generator (own emitter)
 
 HOSTILE = [
@@ -326,8 +390,11 @@ HOSTILE = [
     "日本語のタイトル", "Ünïcödé ♥", "emoji 🎵 song", "{brace}", "[bracket]", "*star", "&anchor", "!tag", "%percent", "@at", "`tick`",
     "yes", "no", "null", "~", "true", "123", "1.5", "1e3", " leading space", "trailing space ", "", "multi\nline", "tab\there",
     "back\\slash", "? question", "| pipe", "> gt", "=", "a, b", "c:\\path\\file.mp3", "Re:Zero", "50% off: now", "...", "---",
+    # Unicode whitespace INSIDE and at the ends of values, full-width / double-byte punctuation, comment-like text
+    "full\u3000width space", "\u3000lead and trail\u3000", "no\u00a0break", "\u00a0", "wave\u301cdash \uff5e tilde", "\uff21\uff22\uff23\uff1a\uff11", "a // b", "// c",
+    "x,y,z", "#", "a #b: c", "key:value", "k:", ":v", "line\r\nbreak", "UPPER lower MiXeD", "keys4", "KEYS7", "0x1F", "0o17", "1_000", ".5", "+1", "1:30", "2001-01-01", "NaN", ".inf", "<<",
 ]
-HOSTILE_TAGS = ["a:b", "#tag", "'q'", '"dq"', "-x", "日本語", "é", "123", "yes", "{x}", "x,y"]
+HOSTILE_TAGS = ["a:b", "#tag", "'q'", '"dq"', "-x", "日本語", "é", "123", "yes", "{x}", "x,y", "no\u00a0break", "wide\u3000space", "\uff5e", "//", "TAG", "tag"]
 BENIGN = ["song", "artist name", "Evening", "Hard", "audio.mp3", "bg.jpg", "banner.png", "some description", "genre"]
 
 FEATURES = [
@@ -335,10 +402,17 @@ FEATURES = [
     "omit_keysounds_some", "omit_keysounds_all", "keysounds_nonempty", "omit_start_time_timing_point", "omit_start_time_all_timing_points",
     "omit_start_time_sv", "omit_start_time_all_svs", "omit_bpm", "omit_multiplier", "empty_hitobjects", "empty_timingpoints", "empty_svs",
     "all_sections_empty", "hits_only", "holds_only", "meta_hostile", "meta_omitted", "float_times", "negative_large_times",
-    "flow_records", "key_order", "mixed",
+    "flow_records", "key_order",
+    # added with the generator audit (empty / one-element / many, ties and boundaries, every omitted key at every position, numerics, extras)
+    "omit_multiplier_all", "omit_bpm_all", "single_records", "one_hit_only", "one_hold_only", "many_records", "zero_length_hold", "end_time_zero",
+    "ties", "long_decimals", "half_ms_times", "extra_top_keys", "extra_record_keys_all", "extra_record_keys_some",
+    "mixed",
 ]
+# features that never enter a "mixed" document: a class that fails on the unchanged tree must stay in clauses of its own
+NOT_IN_MIXED = {"extra_top_keys", "extra_record_keys_all", "extra_record_keys_some"}
 # documents in which every key is present: the charts read from them are the "native, read from a document" charts
-SAFE_FOR_NATIVE = {"plain", "lane", "keysounds_nonempty", "empty_hitobjects", "empty_timingpoints", "empty_svs", "all_sections_empty", "hits_only", "holds_only", "meta_hostile", "float_times", "negative_large_times", "flow_records", "key_order"}
+SAFE_FOR_NATIVE = {"plain", "lane", "keysounds_nonempty", "empty_hitobjects", "empty_timingpoints", "empty_svs", "all_sections_empty", "hits_only", "holds_only", "meta_hostile", "float_times", "negative_large_times", "flow_records", "key_order",
+                   "single_records", "one_hit_only", "one_hold_only", "many_records", "zero_length_hold", "end_time_zero", "ties", "long_decimals", "half_ms_times"}
 
 KS_POOL = [[], [], ["a.wav"], ["a.wav", "b c.ogg"], [{"Sample": 1, "Volume": 50}], [{"Sample": 2, "Volume": 100}, {"Sample": 3, "Volume": 0}]]
 
@@ -357,7 +431,7 @@ def _emit_scalar(v, style):
     assert isinstance(v, str)
     if style == "s" and not any(ord(ch) < 32 for ch in v):
         return "'" + v.replace("'", "''") + "'"
-    if style == "p" and v and v == v.strip() and not any(ord(ch) < 32 for ch in v):
+    if style == "p" and v and v == v.strip(" \t") and not any(ord(ch) < 32 for ch in v):
         return v  # plain: the generator self-check (den == intended) rejects it where YAML reads it differently
     return json.dumps(v, ensure_ascii=False)  # double-quoted; JSON escapes are YAML escapes
 
@@ -411,9 +485,19 @@ def intended_of(spec):
 def _time(rng, kind):
     if kind == "float":
         return rng.choice([0.5, 100.25, 1234.75, 99.999, 2500.001, 7.1])
+    if kind == "half":  # values that round differently under half-even / half-up / truncation / floor, on both sides of 0
+        return rng.choice([0.5, 1.5, 2.5, -0.5, -1.5, -2.5, 2.999, -2.999, 0.999, -0.001, 1000.5, 1001.5])
+    if kind == "long":  # more than 6 significant digits
+        return rng.choice([1234567.875, 123456.789, 100000.125, 7654321, 0.015625])
     if kind == "neglarge":
         return rng.choice([-5000, -1, -250.5, 10**9, 10**9 + 0.5, 3600000])
     return rng.choice([0, 1, 100, 250, 1000, 1500, 123456])
+
+
+BPM_POOL = [120.0, 177.5, 60, 200, 333.333]
+MULT_POOL = [1.0, 0.5, 2, 1.25, -1.0, 0.0, 10.0]
+BPM_LONG = [123.456789, 99.9999999, 0.123456789, 1000000.5, 174]
+MULT_LONG = [1.2345678, 0.3333333333, 9.87654321, 0.0001234, 1]
 
 
 def gen_spec(rng, feature, lane=None):
@@ -421,29 +505,60 @@ def gen_spec(rng, feature, lane=None):
     mixed = feature == "mixed"
 
     def on(f, p=0.35):
-        return feature == f or (mixed and rng.random() < p)
+        return feature == f or (mixed and f not in NOT_IN_MIXED and rng.random() < p)
 
     tk = "float" if on("float_times") else ("neglarge" if on("negative_large_times") else "int")
+    if on("half_ms_times", 0.15):
+        tk = "half"
+    long_dec = on("long_decimals", 0.15)
+    if long_dec and tk == "int":
+        tk = "long"
+    fractional = tk in ("float", "half", "long")
     n_hits, n_holds = rng.randrange(2, 5), rng.randrange(2, 4)
+    single, many = on("single_records", 0.08), on("many_records", 0.04)
+    if single:
+        n_hits = n_holds = 1
+    elif many:
+        n_hits, n_holds = rng.randrange(8, 20), rng.randrange(5, 12)
     if on("hits_only", 0.1):
         n_holds = 0
     elif on("holds_only", 0.1):
         n_hits = 0
+    if feature == "one_hit_only":
+        n_hits, n_holds = 1, 0
+    if feature == "one_hold_only":
+        n_hits, n_holds = 0, 1
     if on("empty_hitobjects", 0.1) or feature == "all_sections_empty":
         n_hits = n_holds = 0
-    n_tp = 0 if (on("empty_timingpoints", 0.1) or feature == "all_sections_empty") else rng.randrange(1, 4)
-    n_sv = 0 if (on("empty_svs", 0.2) or feature == "all_sections_empty") else rng.randrange(1, 4)
+    n_rec = (lambda: 1) if single else ((lambda: rng.randrange(5, 12)) if many else (lambda: rng.randrange(1, 4)))
+    n_tp = 0 if (on("empty_timingpoints", 0.1) or feature == "all_sections_empty") else n_rec()
+    n_sv = 0 if (on("empty_svs", 0.2) or feature == "all_sections_empty") else n_rec()
 
     ks_pool = KS_POOL if on("keysounds_nonempty", 0.5) else [[]]
+    zero_len, end_zero = on("zero_length_hold", 0.15), on("end_time_zero", 0.1)
     objs = []
     for i in range(n_hits + n_holds):
         t = _time(rng, tk)
         r = [["StartTime", t], ["Lane", lane if (lane and i == 0) else rng.randrange(1, 9)]]
         if i >= n_hits:
-            r.append(["EndTime", t + rng.choice([1, 50, 500, 1000.5] if tk == "float" else [1, 50, 500, 100000])])
+            e = t + rng.choice([1, 50, 500, 1000.5, 0.5, 0.25] if fractional else [1, 50, 500, 100000])
+            if zero_len and (i == n_hits or rng.random() < 0.5):
+                e = t  # end == start: a hold of length 0
+            r.append(["EndTime", e])
         r.append(["KeySounds", rng.choice(ks_pool)])
         objs.append(r)
+    if end_zero and n_holds:  # a hold whose END is exactly 0 (lead-in hold before the audio start, or zero length at 0)
+        r = objs[n_hits + rng.randrange(n_holds)]
+        r[0][1] = rng.choice([-100, -1, 0, -250.5, -0.5] if fractional else [-100, -1, 0, -5000])
+        for kv in r:
+            if kv[0] == "EndTime":
+                kv[1] = 0
     hit_ix, hold_ix = list(range(n_hits)), list(range(n_hits, n_hits + n_holds))
+    ties = on("ties", 0.2)
+    if ties and n_hits >= 2:  # two hits at exactly the same time in the same lane
+        objs[1][0][1], objs[1][1][1] = objs[0][0][1], objs[0][1][1]
+    if ties and n_hits >= 1 and n_holds >= 1:  # a hit exactly on the head of a hold
+        objs[n_hits - 1][0][1], objs[n_hits - 1][1][1] = objs[n_hits][0][1], objs[n_hits][1][1]
 
     def drop(recs, ixs, key):
         for i in ixs:
@@ -464,24 +579,45 @@ def gen_spec(rng, feature, lane=None):
             drop(objs, [i for i in range(len(objs)) if i % 2 == 0], "KeySounds")
         if on("omit_keysounds_all", 0.1):
             drop(objs, range(len(objs)), "KeySounds")
+    # unknown-but-legal record keys (never in mixed documents)
+    if feature in ("extra_record_keys_all", "extra_record_keys_some"):
+        some = feature.endswith("some")
+        for i, r in enumerate(objs):
+            if not some or i % 2 == 0:
+                r.append(["HitSound", rng.choice(["Clap", "Whistle, Finish", "Normal"])])
+            if not some or i % 2 == 1:
+                r.append(["EditorLayer", rng.randrange(1, 4)])
     rng.shuffle(objs)  # hits and holds interleaved in the document
 
-    tps = [[["StartTime", _time(rng, tk)], ["Bpm", rng.choice([120.0, 177.5, 60, 200, 333.333])]] for _ in range(n_tp)]
-    svs = [[["StartTime", _time(rng, tk)], ["Multiplier", rng.choice([1.0, 0.5, 2, 1.25, -1.0, 0.0, 10.0])]] for _ in range(n_sv)]
+    bpm_pool, mult_pool = (BPM_LONG, MULT_LONG) if long_dec else (BPM_POOL, MULT_POOL)
+    tps = [[["StartTime", _time(rng, tk)], ["Bpm", rng.choice(bpm_pool)]] for _ in range(n_tp)]
+    svs = [[["StartTime", _time(rng, tk)], ["Multiplier", rng.choice(mult_pool)]] for _ in range(n_sv)]
+    if ties:  # two tempo changes / two SVs at exactly the same time with different values
+        for recs, pool in ((tps, bpm_pool), (svs, mult_pool)):
+            if recs:
+                recs.insert(rng.randrange(len(recs) + 1), [["StartTime", recs[0][0][1]], [recs[0][1][0], rng.choice([v for v in pool if v != recs[0][1][1]])]])
+    if feature in ("extra_record_keys_all", "extra_record_keys_some"):
+        for i, r in enumerate(tps):
+            if feature.endswith("all") or i % 2 == 0:
+                r += [["Signature", 3], ["Hidden", True]]
     if tps:
         if on("omit_start_time_timing_point", 0.2):
             drop(tps, [0], "StartTime")
         if on("omit_start_time_all_timing_points", 0.1):
             drop(tps, range(len(tps)), "StartTime")
         if on("omit_bpm", 0.1):
-            drop(tps, [len(tps) - 1], "Bpm")
+            drop(tps, [rng.randrange(len(tps))], "Bpm")
+        if on("omit_bpm_all", 0.04):
+            drop(tps, range(len(tps)), "Bpm")
     if svs:
         if on("omit_start_time_sv", 0.2):
             drop(svs, [0], "StartTime")
         if on("omit_start_time_all_svs", 0.1):
             drop(svs, range(len(svs)), "StartTime")
-        if on("omit_multiplier", 0.1):
-            drop(svs, [len(svs) - 1], "Multiplier")
+        if on("omit_multiplier", 0.15):  # any position: first / middle / last / the only entry
+            drop(svs, [rng.randrange(len(svs))], "Multiplier")
+        if on("omit_multiplier_all", 0.05):
+            drop(svs, range(len(svs)), "Multiplier")
 
     hostile = on("meta_hostile", 0.6)
 
@@ -510,6 +646,8 @@ def gen_spec(rng, feature, lane=None):
         top.append([k, v, style()])
     if on("meta_omitted", 0.3):
         top = [e for e in top if rng.random() < 0.5]
+    if feature == "extra_top_keys":  # keys outside A5 that real documents carry
+        top += [["Bookmarks", rng.choice([[], [{"StartTime": 1000, "Note": "drop: here"}]]), "d"], ["LegacyLNRendering", rng.random() < 0.5, "d"], ["CustomNote", text(), style()]]
     rs = "flow" if on("flow_records", 0.3) else "block"
     top += [["TimingPoints", [tps, rs], ""], ["SliderVelocities", [svs, rs], ""], ["HitObjects", [objs, rs], ""]]
     if on("key_order", 0.5):
@@ -521,9 +659,32 @@ def gen_spec(rng, feature, lane=None):
     return dict(top=top)
 
 
-def _doc_case(rng, feature, lane=None):
+FORMS = ["crlf", "trailing_blank_lines", "no_final_newline", "comments"]
+READ_VIAS = ["lines_split", "lines_splitlines", "lines_keepends", "unsafe", "instance", "file"]
+WRITE_VIAS = ["write", "write_file", "write_file_path"]
+
+
+def _apply_form(rng, text, form):
+    """The same YAML document in another textual form (line ends, blank lines, comment lines)."""
+    if form == "crlf":
+        return text.replace("\n", "\r\n")
+    if form == "trailing_blank_lines":
+        return text + "\n\n"
+    if form == "no_final_newline":
+        return text.rstrip("\n")
+    if form == "comments":  # comment lines at the top, the bottom and before a top-level key
+        lines = text.split("\n")
+        tops = [i for i, l in enumerate(lines) if l and l[0] not in " -#"]
+        i = rng.choice(tops)
+        lines[i:i] = ["# Title: not a key  # nested", "#"]
+        return "# a .qua document: comment, 'quotes', [brackets]\n" + "\n".join(lines) + "# end\n"
+    return text
+
+
+def _doc_case(rng, feature, lane=None, vary=0.4):
     """(case, text, intended): the generator checks ITSELF first - its own emitter read through the oracle
-    must give the chart it meant, otherwise the checker (not reamber) is wrong."""
+    must give the chart it meant, otherwise the checker (not reamber) is wrong.  With probability `vary` each,
+    the text FORM, the read entry point (`via`) and the write entry point (`wvia`) are non-default."""
     spec = gen_spec(rng, feature, lane)
     for e in spec["top"]:  # plain style only where YAML reads the bare text as that very string
         if isinstance(e[1], str) and e[2] == "p":
@@ -534,12 +695,55 @@ def _doc_case(rng, feature, lane=None):
             if not ok:
                 e[2] = "d"
     text = emit_doc(spec)
+    form = rng.choice(FORMS) if rng.random() < vary else "lf"
+    text = _apply_form(rng, text, form)
     want = intended_of(spec)
     got = den_qua(text)
     diff = compare_charts(want, got, 1e-9) or compare_charts(got, want, 1e-9)
     if diff or set(got["meta"]) != set(want["meta"]):
         raise AssertionError(f"generator/oracle disagreement on its own document:\n{text}\n{diff}")
-    return dict(feature=feature, text=text), text, want
+    case = dict(feature=feature, text=text)
+    if rng.random() < vary:
+        case["via"] = rng.choice(READ_VIAS)
+    if rng.random() < vary:
+        case["wvia"] = rng.choice(WRITE_VIAS)
+    return case, text, want
+
+
+def _read_via(text, via):
+    """The charts REAL reamber reads from the document through entry point `via` (one chart, or two when the
+    same input OBJECT is read twice: the second reading must denote the document like the first)."""
+    from reamber.quaver.QuaMap import QuaMap
+
+    if via == "str":
+        return [QuaMap.read(text)]
+    if via == "unsafe":
+        return [QuaMap.read(text, safe=False)]
+    if via == "instance":
+        return [QuaMap().read(text)]
+    if via.startswith("lines_"):
+        lines = text.split("\n") if via == "lines_split" else (text.splitlines() if via == "lines_splitlines" else text.splitlines(True))
+        return [QuaMap.read(lines), QuaMap.read(lines)]
+    if via == "file":
+        with tempfile.TemporaryDirectory(prefix="c06_") as d:
+            p = os.path.join(d, "chart 譜面.qua")
+            with open(p, "wb") as fh:
+                fh.write(text.encode("utf-8"))
+            return [QuaMap.read_file(p), QuaMap.read_file(pathlib.Path(p))]
+    raise ValueError(via)
+
+
+def _write_via(m, wvia):
+    """The document text REAL reamber writes for the chart through write() or write_file()."""
+    if wvia == "write":
+        return m.write()
+    if wvia in ("write_file", "write_file_path"):
+        with tempfile.TemporaryDirectory(prefix="c06_") as d:
+            p = os.path.join(d, "out 譜面.qua")
+            m.write_file(p if wvia == "write_file" else pathlib.Path(p))
+            with open(p, "rb") as fh:
+                return fh.read().decode("utf-8")
+    raise ValueError(wvia)
 
 
 @contextlib.contextmanager
@@ -563,41 +767,59 @@ def _exc(ex):
 
 def run_read_case(case):
     """-> [(what, detail)]"""
-    from reamber.quaver.QuaMap import QuaMap
-
     f = case["feature"]
     text = case["text"]
+    via = case.get("via", "str")
     want = den_qua(text)
     try:
         with _quiet():
-            m = QuaMap.read(text)
-            got = chart_of(m)
+            charts = [chart_of(m) for m in _read_via(text, via)]
     except Exception as ex:
-        return [(f"read.accepts[{f}]", _exc(ex))]
-    return [(f"read.{a}[{f}]", d) for a, d in compare_charts(want, got, 1e-6)]
+        return [(f"read.accepts[{f}]", f"(via {via}) " + _exc(ex))]
+    out, seen = [], set()
+    for i, got in enumerate(charts):
+        tag = f"(via {via}" + (", SECOND reading of the same input object) " if i else ") ")
+        found = compare_charts(want, got, 1e-6)
+        d = sv_default_clause(want, got, 1e-6)
+        if d:
+            found.append(("sv_default_multiplier", d))
+        for a, d in found:
+            if a not in seen:
+                seen.add(a)
+                out.append((f"read.{a}[{f}]", (tag if via != "str" else "") + d))
+    return out
 
 
 @bounded("C06", note="generated .qua documents (A5 grammar, own emitter) -> REAL QuaMap.read vs the independent denotation den_qua: lanes 1..8, every optional key present/absent, empty sections, hits only, holds only, YAML-hostile metadata")
 def qua_read_vs_denotation(rep):
     rng = rep.rng
     N = rep.n(300, 4000)
-    rep.bound = f"{N} documents: lanes 1..8 enumerated, every single-feature document x seeds ({len(FEATURES) - 2} features), rest random feature mixtures; <= 4 hits, <= 3 holds, <= 3 timing points, <= 3 SVs per document; strings from a pool of {len(HOSTILE)} YAML-hostile texts in plain/single/double quoting"
-    rep.rule = "a case is one document text; non-trivial when it has at least one object or timing record; each document is first read through the oracle and compared with the chart the generator meant (self-check)"
+    rep.bound = (f"{N} documents: lanes 1..8 enumerated, every single-feature document x seeds ({len(FEATURES) - 2} features), rest random feature mixtures; "
+                 "1..4 hits, 1..3 holds, 1..3 timing points, 1..3 SVs per document (exactly one of each / 8..19 hits, 5..11 holds, 5..11 timing points and SVs as features of their own); "
+                 "each section empty on its own; StartTime omitted on one / all records of every kind, KeySounds on some / all, Bpm and Multiplier on one record at any position / on all; "
+                 "zero-length holds, a hold ending exactly at 0, two hits / hit on hold head / two timing points / two SVs at exactly the same time with different values; "
+                 "times: whole, fractional, x.5 and x.999 on both sides of 0, negative, 1e9, > 6 significant digits (also Bpm / Multiplier); unknown top-level keys, unknown record keys on all / on some records (single-feature documents only); "
+                 f"strings from a pool of {len(HOSTILE)} YAML-hostile texts (incl. U+00A0 / U+3000 inside and at the ends, full-width punctuation, wave dash, '//', ',', '#', CR LF, YAML 1.1 number / date look-alikes) in plain/single/double quoting; "
+                 f"40% of the documents in another text form ({', '.join(FORMS)}) and 40% through another entry point than read(str) ({', '.join(READ_VIAS)}; list inputs are read twice from the same list object, files through a str path and a Path)")
+    rep.rule = ("a case is one document text + entry point; non-trivial when it has at least one object or timing record; each document is first read through the oracle and compared with the chart the generator meant (self-check); "
+                f"an omitted Multiplier must read as one constant out of {DEFAULT_MULTIPLIERS} (clause sv_default_multiplier), an omitted Bpm is not asserted")
     plan = [("lane", l) for l in range(1, 9)]
     singles = [f for f in FEATURES if f not in ("lane", "mixed")]
     per = max(3, (2 * N // 3) // len(singles))
     plan += [(f, None) for f in singles for _ in range(per)]
     plan += [("mixed", None)] * max(0, N - len(plan))
-    feats = {}
+    feats, vias = {}, {}
     for f, lane in plan:
         if rep.out_of_time(40, 300):
             break
         case, text, want = _doc_case(rng, f, lane)
         rep.case(case, nontrivial=bool(want["hits"] or want["holds"] or want["bpms"] or want["svs"]))
         feats[f] = feats.get(f, 0) + 1
+        vias[case.get("via", "str")] = vias.get(case.get("via", "str"), 0) + 1
         for what, d in run_read_case(case):
             rep.fail(what, case, d)
     rep.extra["documents_per_feature"] = feats
+    rep.extra["documents_per_entry_point"] = vias
 
 
 @replayer("qua_read_vs_denotation")
@@ -608,12 +830,18 @@ def _replay_read(case, what):
 
 # ----------------------------------------------------------------------------- in-memory charts
 
-_T_NATIVE = [0, 100, 100.7, 250.25, 999.999, -50.5, -1, 1000000000.5, 3600000, 0.4, -0.4]
+_T_NATIVE = [0, 100, 100.7, 250.25, 999.999, -50.5, -1, 1000000000.5, 3600000, 0.4, -0.4,
+             0.5, 1.5, 2.5, -0.5, -1.5, 2.999, 1234567.875]          # x.5 on both sides of 0, x.999, > 6 significant digits
+_T_INT = [0, 1, 100, 250, 999, -50, -1, 1000000000, 3600000]         # all-int charts: int64 columns
+_LEN_NATIVE = [0.2, 1, 50.5, 500, 99999.9, 0, 0.5, 0.999]            # incl. zero-length holds (end == start)
+_LEN_INT = [0, 1, 50, 500, 100000]
+POST_OPS = ["none", "sorted", "sorted_desc", "reversed", "drop_first", "keep_odd", "drop_second"]
 
 
-def _gen_objects(rng, keys, n_hits, n_holds, with_ks):
-    hits = [[rng.choice(_T_NATIVE), rng.randrange(keys), rng.choice(KS_POOL) if with_ks else []] for _ in range(n_hits)]
-    holds = [[rng.choice(_T_NATIVE), rng.randrange(keys), rng.choice([0.2, 1, 50.5, 500, 99999.9]), rng.choice(KS_POOL) if with_ks else []] for _ in range(n_holds)]
+def _gen_objects(rng, keys, n_hits, n_holds, with_ks, ints=False):
+    T, L = (_T_INT, _LEN_INT) if ints else (_T_NATIVE, _LEN_NATIVE)
+    hits = [[rng.choice(T), rng.randrange(keys), rng.choice(KS_POOL) if with_ks else []] for _ in range(n_hits)]
+    holds = [[rng.choice(T), rng.randrange(keys), rng.choice(L), rng.choice(KS_POOL) if with_ks else []] for _ in range(n_holds)]
     return hits, holds
 
 
@@ -621,14 +849,21 @@ def gen_chart_case(rng, origin):
     """JSON-able description of an in-memory source chart.  origin: lists (native Quaver lists) | osu | sm | bms | o2j."""
     keys = rng.choice([4, 7])
     # (BMSToQua derives the key count from the highest column, so an empty BMS chart cannot be converted at all)
-    shape = rng.choice(["both", "both", "both", "hits_only", "holds_only"] + ([] if origin == "bms" else ["empty"]))
+    shape = rng.choice(["both", "both", "both", "hits_only", "holds_only", "many"] + ([] if origin == "bms" else ["empty"]))
     n_hits = 0 if shape in ("holds_only", "empty") else rng.randrange(1, 5)
     n_holds = 0 if shape in ("hits_only", "empty") else rng.randrange(1, 4)
-    hits, holds = _gen_objects(rng, keys, n_hits, n_holds, with_ks=(origin == "lists"))
+    if shape == "many":
+        n_hits, n_holds = rng.randrange(8, 25), rng.randrange(5, 12)
+    # numeric types of the item values (native lists only): python numbers of mixed type, all ints (int64 columns), numpy scalars
+    numeric = rng.choice(["py", "py", "int", "np"]) if origin == "lists" else "py"
+    ints = numeric == "int"
+    hits, holds = _gen_objects(rng, keys, n_hits, n_holds, with_ks=(origin == "lists"), ints=ints)
     if origin == "bms" and (hits or holds):  # key count of a BMS chart = highest column + 1
         (hits or holds)[0][1] = keys - 1
-    bpms = [[rng.choice([0, -100.5, 1000, 2500.75]), rng.choice([120, 177.5, 60.0, 333.333])] for _ in range(rng.randrange(0 if origin == "lists" else 1, 3))]
-    svs = [[rng.choice(_T_NATIVE), rng.choice([1.0, 0.5, 2.0, 1.25, -1.0, 10.0])] for _ in range(rng.randrange(0, 3))] if origin in ("lists", "osu") else []
+    bpms = [[rng.choice([0, -100, 1000, 2500] if ints else [0, -100.5, 1000, 2500.75]), rng.choice([120, 60, 200] if ints else [120, 177.5, 60.0, 333.333, 123.456789])]
+            for _ in range(rng.randrange(0 if origin == "lists" else 1, 4))]
+    svs = [[rng.choice(_T_INT if ints else _T_NATIVE), rng.choice([1, 2, -1, 0, 10] if ints else [1.0, 0.5, 2.0, 1.25, -1.0, 10.0, 0.0, 1.2345678, 0.3333333333])]
+           for _ in range(rng.randrange(0, 4))] if origin in ("lists", "osu") else []
     hostile = rng.random() < 0.7
     pool = HOSTILE if hostile else BENIGN
     meta = dict(title=rng.choice(pool), artist=rng.choice(pool), creator=rng.choice(pool), version=rng.choice(pool), audio=rng.choice(pool), background=rng.choice(pool),
@@ -636,7 +871,44 @@ def gen_chart_case(rng, origin):
     if origin == "lists":
         meta.update(source=rng.choice(pool), description=rng.choice(pool), genre=rng.choice(pool), banner=rng.choice(pool), map_id=rng.choice([-1, 77]), isv=rng.choice([1.0, 2.5]),
                     scratch=rng.random() < 0.5, bpm_sv=rng.random() < 0.5, layers=rng.choice([[], [{"Name": "L: 1", "ColorRgb": "1,2,3"}]]))
-    return dict(origin=origin, keys=keys, hits=hits, holds=holds, bpms=bpms, svs=svs, meta=meta)
+    case = dict(origin=origin, keys=keys, hits=hits, holds=holds, bpms=bpms, svs=svs, meta=meta)
+    if numeric != "py":
+        case["numeric"] = numeric
+    if rng.random() < 0.4:  # public list operations before writing: row labels permuted / reversed / offset / gappy, per list kind
+        case["post"] = {k: rng.choice(POST_OPS) for k in ("hits", "holds", "bpms", "svs")}
+    if rng.random() < 0.3:
+        case["wvia"] = rng.choice(WRITE_VIAS[1:])
+    if rng.random() < 0.3:  # entry point of the read-after-write (not lines_keepends: a written document may hold multi-line scalars, in which doubled line ends are another text)
+        case["rvia"] = rng.choice([v for v in READ_VIAS if v != "lines_keepends"])
+    return case
+
+
+def _post_op(lst, op):
+    """A public list operation that leaves other row labels than 0..n-1 (and possibly fewer / reordered rows)."""
+    import numpy as np
+
+    n = len(lst)
+    if op == "sorted":
+        return lst.sorted()
+    if op == "sorted_desc":
+        return lst.sorted(reverse=True)
+    if op == "reversed":
+        return lst[::-1]
+    if op == "drop_first":
+        return lst[1:]
+    if op == "keep_odd":
+        return lst[np.arange(n) % 2 == 1]
+    if op == "drop_second":
+        return lst[np.arange(n) != 1]
+    return lst
+
+
+def _apply_post(charts, post):
+    for m in charts:
+        for k, op in (post or {}).items():
+            if op != "none":
+                setattr(m, k, _post_op(getattr(m, k), op))
+    return charts
 
 
 _FIXTURES = dict(osu="rsc/maps/osu/*.osu", sm="rsc/maps/sm/*.sm", bms="rsc/maps/bms/*", o2j="rsc/maps/o2jam/*.ojn", qua="rsc/maps/qua/*.qua")
@@ -656,12 +928,17 @@ def _cut(m, limit):
 
 
 def build_charts(case):
-    """case -> [QuaMap] through the REAL constructors / converters (a converter may give several charts)."""
+    """case -> [QuaMap] through the REAL constructors / converters (a converter may give several charts), then
+    the public list operations of case['post'] on each of its four lists."""
+    return _apply_post(_build_charts(case), case.get("post"))
+
+
+def _build_charts(case):
     o = case["origin"]
     if o == "doc":
         from reamber.quaver.QuaMap import QuaMap
 
-        return [QuaMap.read(case["text"])]
+        return _read_via(case["text"], case.get("via", "str"))[-1:]
     if "file" in case:
         path = os.path.join(REPO, case["file"])
         lim = case.get("limit")
@@ -709,11 +986,20 @@ def build_charts(case):
         from reamber.quaver.lists.notes.QuaHitList import QuaHitList
         from reamber.quaver.lists.notes.QuaHoldList import QuaHoldList
 
+        if case.get("numeric") == "np":  # numpy scalars as item values
+            import numpy as np
+
+            def N(v):
+                return np.int64(v) if isinstance(v, int) else np.float64(v)
+        else:
+            def N(v):
+                return v
+
         m = QuaMap()
-        m.hits = QuaHitList([QuaHit(offset=t, column=c, keysounds=list(k)) for t, c, k in H])
-        m.holds = QuaHoldList([QuaHold(offset=t, column=c, length=d, keysounds=list(k)) for t, c, d, k in L])
-        m.bpms = QuaBpmList([QuaBpm(offset=t, bpm=b) for t, b in B])
-        m.svs = QuaSvList([QuaSv(offset=t, multiplier=x) for t, x in S])
+        m.hits = QuaHitList([QuaHit(offset=N(t), column=N(c), keysounds=list(k)) for t, c, k in H])
+        m.holds = QuaHoldList([QuaHold(offset=N(t), column=N(c), length=N(d), keysounds=list(k)) for t, c, d, k in L])
+        m.bpms = QuaBpmList([QuaBpm(offset=N(t), bpm=N(b)) for t, b in B])
+        m.svs = QuaSvList([QuaSv(offset=N(t), multiplier=N(x)) for t, x in S])
         m.title, m.artist, m.creator, m.difficulty_name = me["title"], me["artist"], me["creator"], me["version"]
         m.audio_file, m.background_file, m.banner_file = me["audio"], me["background"], me["banner"]
         m.tags, m.song_preview_time, m.source, m.description, m.genre = list(me["tags"]), me["preview"], me["source"], me["description"], me["genre"]
@@ -831,37 +1117,53 @@ def run_write_case(case):
         if not _finite_chart(chart):
             continue  # outside the property's domain (non-finite times in the source)
         nobj += len(chart["hits"]) + len(chart["holds"])
+        wvia = case.get("wvia", "write")
+        wtag = tag + ("" if wvia == "write" else f" (written via {wvia})")
         try:
             with _quiet():
-                text = m.write()
+                text = _write_via(m, wvia)
         except Exception as ex:
-            out.append((f"{oc}.write.succeeds", _exc(ex) + tag))
+            out.append((f"{oc}.write.succeeds", _exc(ex) + wtag))
             continue
         try:
             raw = _yaml_load(text)
             if not isinstance(raw, dict):
                 raise DenError(f"top level is {type(raw).__name__}")
         except Exception as ex:
-            out.append((f"{oc}.write.loads_as_mapping", _exc(ex) + tag + "\n" + text[:400]))
+            out.append((f"{oc}.write.loads_as_mapping", _exc(ex) + wtag + "\n" + text[:400]))
             continue
         for a, d in wf_qua(raw):
-            out.append((f"{oc}.write.{a}", d + tag))
+            out.append((f"{oc}.write.{a}", d + wtag))
         isv += int("InitialScrollVelocity" in raw and not _is_num(raw["InitialScrollVelocity"]))
         try:
             den = den_qua(raw)
             for a, d in compare_charts(chart, den, 1.0):
-                out.append((f"{oc}.write.same_{a}", d + tag))
+                out.append((f"{oc}.write.same_{a}", d + wtag))
         except DenError as ex:
-            out.append((f"{oc}.write.value_types", "no denotation: " + str(ex) + tag))
+            out.append((f"{oc}.write.value_types", "no denotation: " + str(ex) + wtag))
+        # the SAME chart object written a second time: that document, too, denotes the chart as it was handed over
+        try:
+            with _quiet():
+                text_again = m.write()
+            if text_again != text:
+                raw2 = _yaml_load(text_again)
+                if not isinstance(raw2, dict):
+                    raise DenError(f"top level is {type(raw2).__name__}")
+                for a, d in wf_qua(raw2):
+                    out.append((f"{oc}.write_again.{a}", d + tag))
+                for a, d in compare_charts(chart, den_qua(raw2), 1.0):
+                    out.append((f"{oc}.write_again.same_{a}", d + tag))
+        except Exception as ex:
+            out.append((f"{oc}.write_again.succeeds", _exc(ex) + tag))
         # (c) read after write: the chart read back is the chart written, < 1 ms
         try:
             with _quiet():
-                back = chart_of(QuaMap.read(text))
+                back = chart_of(_read_via(text, case.get("rvia", "str"))[-1])
         except Exception as ex:
-            out.append((f"{oc}.read_after_write.accepts", _exc(ex) + tag))
+            out.append((f"{oc}.read_after_write.accepts", _exc(ex) + wtag))
             continue
         for a, d in compare_charts(chart, back, 1.0):
-            out.append((f"{oc}.read_after_write.{a}", d + tag))
+            out.append((f"{oc}.read_after_write.{a}", d + wtag))
     # one detail per clause is enough
     seen, uniq = set(), []
     for w, d in out:
@@ -876,8 +1178,10 @@ def qua_write_vs_denotation(rep):
     rng = rep.rng
     N = rep.n(40, 500)  # per origin
     lim, nfiles = rep.n(120, 0), rep.n(1, 99)
-    rep.bound = f"per origin {N} generated charts (origins: Quaver item lists, generated documents read back, osu, sm, bms, o2j; keys 4/7; 0..4 hits, 0..3 holds incl. hits only / holds only / empty; times from a grid with fractional, negative and 1e9 values; metadata from the YAML-hostile pool) + fixtures under rsc/maps ({'first ' + str(lim) + ' objects of the smallest file' if lim else 'all files, whole charts'} per format)"
-    rep.rule = "a case is one source chart description (rebuilt through the real constructors / converters); non-trivial when the written chart has at least one object"
+    rep.bound = (f"per origin {N} generated charts (origins: Quaver item lists, generated documents read back, osu, sm, bms, o2j; keys 4/7; 0..4 hits, 0..3 holds incl. hits only / holds only / empty, 1 in 7 with 8..24 hits and 5..11 holds; 0..3 timing points, 0..3 SVs; times from a grid with fractional, x.5 / x.999 on both sides of 0, negative, 1e9 and > 6-digit values; hold lengths incl. 0; "
+                 "native item lists with python numbers, all-int columns or numpy scalars; 40% of the charts after public list operations on each of hits / holds / timing points / SVs (sorted, sorted descending, reversed, first row dropped, mask filters: permuted / reversed / offset / gappy row labels); "
+                 f"30% written through write_file (str path / Path) instead of write(), every chart written a second time, 30% read back through another entry point than read(str); metadata from the YAML-hostile pool) + fixtures under rsc/maps ({'first ' + str(lim) + ' objects of the smallest file' if lim else 'all files, whole charts'} per format)")
+    rep.rule = "a case is one source chart description (rebuilt through the real constructors / converters, then the case's list operations); the chart compared is the one handed to the writer, snapshot before the first write; non-trivial when the written chart has at least one object"
     plan = []
     for o in ("qua", "osu", "sm", "bms", "o2j"):
         plan += fixture_cases(o, lim)
@@ -895,7 +1199,9 @@ def qua_write_vs_denotation(rep):
             case = p
         elif p == "doc":
             c, text, _ = _doc_case(rng, rng.choice(safe))
-            case = dict(origin="doc", feature=c["feature"], text=text)
+            case = dict(c, origin="doc")
+            if rng.random() < 0.4:
+                case["post"] = {k: rng.choice(POST_OPS) for k in ("hits", "holds", "bpms", "svs")}
         else:
             case = gen_chart_case(rng, p)
         failed, info = run_write_case(case)
@@ -928,33 +1234,47 @@ def _replay_write(case, what):
 
 
 def run_war_case(case):
-    """text -> read -> write -> den  vs  den(text), < 1 ms; the re-written text is well-formed."""
-    from reamber.quaver.QuaMap import QuaMap
-
+    """text -> read -> write -> den  vs  den(text), < 1 ms; the re-written text is well-formed.  The chart is
+    written TWICE (second time always through write()): both documents must denote the original text."""
     f = case["feature"]
     if "file" in case:
         with open(os.path.join(REPO, case["file"]), encoding="utf-8") as fh:
             text = fh.read()
     else:
         text = case["text"]
-    want = den_qua(text)
+    via, wvia = case.get("via", "str"), case.get("wvia", "write")
+    src = _yaml_load(text)
+    want = den_qua(src)
+    extra_top, extra_rec = extras_of(src)
     try:
         with _quiet():
-            m = QuaMap.read(text)
+            m = _read_via(text, via)[-1]
     except Exception:
         return []  # reported by read.accepts[...]
-    try:
-        with _quiet():
-            text2 = m.write()
-    except Exception as ex:
-        return [(f"write_after_read.succeeds[{f}]", _exc(ex))]
-    try:
-        raw = _yaml_load(text2)
-        got = den_qua(raw)
-    except Exception as ex:
-        return [(f"write_after_read.loads_as_mapping[{f}]", _exc(ex) + "\n" + text2[:300])]
-    out = [(f"write_after_read.{a}[{f}]", d) for a, d in wf_qua(raw)]
-    out += [(f"write_after_read.{a}[{f}]", d) for a, d in compare_charts(want, got, 1.0)]
+    out, seen = [], set()
+    for nth, how in enumerate((wvia, "write")):
+        tag = f"(read via {via}, written via {how}" + (", SECOND writing of the same chart object) " if nth else ") ")
+        tag = "" if (via, how, nth) == ("str", "write", 0) else tag
+        try:
+            with _quiet():
+                text2 = _write_via(m, how)
+        except Exception as ex:
+            found = [("succeeds", _exc(ex))]
+        else:
+            try:
+                raw = _yaml_load(text2)
+                got = den_qua(raw)
+            except Exception as ex:
+                found = [("loads_as_mapping", _exc(ex) + "\n" + text2[:300])]
+            else:
+                found = wf_qua(raw, extra_top, extra_rec) + compare_charts(want, got, 1.0)
+                d = sv_default_clause(want, got, 1.0)
+                if d:
+                    found.append(("sv_default_multiplier", d))
+        for a, d in found:
+            if a not in seen:
+                seen.add(a)
+                out.append((f"write_after_read.{a}[{f}]", tag + d))
     return out
 
 
@@ -963,8 +1283,10 @@ def qua_write_after_read(rep):
     rng = rep.rng
     N = rep.n(200, 3000)
     files = sorted(glob.glob(os.path.join(REPO, _FIXTURES["qua"])), key=os.path.getsize)[: rep.n(1, 9)]
-    rep.bound = f"{N} generated documents (same generator as qua_read_vs_denotation: every single feature x seeds + mixtures) + {len(files)} .qua fixture(s) under rsc/maps/qua"
-    rep.rule = "a case is one document text; non-trivial when it has at least one object or timing record; documents REAL read rejects are counted under read.accepts of qua_read_vs_denotation, not here"
+    rep.bound = (f"{N} generated documents (same generator as qua_read_vs_denotation: every single feature x seeds + mixtures, 40% in another text form, 40% read through another entry point, 40% written through write_file) + {len(files)} .qua fixture(s) under rsc/maps/qua; "
+                 "every chart is written twice and both documents are compared with the source text")
+    rep.rule = ("a case is one document text + read / write entry points; non-trivial when it has at least one object or timing record; documents REAL read rejects are counted under read.accepts of qua_read_vs_denotation, not here; "
+                "keys outside the format that the source document carried itself may be written back or dropped, but never as a non-finite number")
     singles = [f for f in FEATURES if f not in ("lane", "mixed")]
     per = max(3, (2 * N // 3) // len(singles))
     plan = [f for f in singles for _ in range(per)]
